@@ -38,7 +38,8 @@ fn(C + "__getitem__", cls="LRUCache", props=["C54"], types=T, raises={"KeyError"
 # (held by this call's thread).  acquire(False)/release() are assumed contracts of threading.Lock.
 cls("Lock", fields={"_g_locked": "bool", "_g_mine": "bool"},
     methods={"acquire": "threading::Lock.acquire@nonblocking", "release": "threading::Lock.release@ghost"})
-fn("threading::Lock.acquire@nonblocking", abstract=True, cls="Lock", params=["self", "blocking"], returns="bool",
+fn("threading::Lock.acquire@nonblocking", abstract=True, cls="Lock", params=["self", "blocking"], returns="bool", types={"blocking": "bool"},
+   requires=["not blocking"],
    ensures=["result == (not old(self._g_locked))", "self._g_locked", "self._g_mine == (old(self._g_mine) or result)"],
    modifies=["self._g_locked", "self._g_mine"], notes="threading.Lock.acquire(False)")
 fn("threading::Lock.release@ghost", abstract=True, cls="Lock", params=["self"], returns="none",
@@ -79,10 +80,10 @@ SURV = "all(old(dhas(self._data, k)) and dget(self._data, k) is old(dget(self._d
 BOUND = "self.capacity + self.capacity * self.threshold"
 fn(C + "_manage_size", cls="LRUCache", props=["C54"], returns="none",
    types=dict(T, by_counter="seq", size_alert="bool", **{"expr:by_counter[_i]": "tupleval", "expr:by_counter[j]": "tupleval", "expr:by_counter[i]": "tupleval"}),
-   callees={"self.size_alert": dict(fn=C + "size_alert@env", args=["self"]),
+   callees={"self.size_alert": dict(fn=C + "size_alert@env", args=["$0"]),
             "sorted": dict(fn="builtins::sorted@by_counter_desc", args=["self._data"],
                            expect="sorted(self._data.values(), key=operator.itemgetter(2), reverse=True)"),
-            "self._mutex.acquire": dict(fn="threading::Lock.acquire@nonblocking", recv="self._mutex", args=["False"]),
+            "self._mutex.acquire": dict(fn="threading::Lock.acquire@nonblocking", recv="self._mutex", args=["$0"]),
             "self._mutex.release": dict(fn="threading::Lock.release@ghost", recv="self._mutex", args=[])},
    requires=LOCKFREE,
    invariant={
